@@ -109,7 +109,7 @@ prop('C06',
                   'A-reshash: component caching is assumed sound -- two solver states with equal 128-bit residual hashes are interchangeable for diagram validity (on the real code: the prime-product hash identifies the residual formula and diagrams mention residual variables only); FxHashMap is the weak stub of A-fxhashmap; Cnf is the stub of A-cnf-stub with an uninterpreted truth function csem_of(id, env)'],
      replay='dnnf',
      explanation='last sentence of the property: DecisionNNFBuilder::cond_helper / TopDownBuilder::condition carry  forall env. ptr_sem(r, env) == ptr_sem(bdd, upd(env, lbl, value))  '
-                 'for regular AND complemented pointers of any diagram in which no path decides a variable twice (no ordering assumption); var and the standard store get_or_insert are under contract; conjoin_implied (the step by which unit-propagated literals enter a diagram) returns the diagram conjoined with the literals and keeps "decides once".  First sentence of the property, RELATIVE to the assumed solver interface (A-sat) and cache soundness (A-reshash): topdown_h returns a diagram that agrees with the formula on every assignment extending the current partial model, decides no variable twice and none that the model assigns, restores the solver stack and keeps the component cache valid; compile_cnf_topdown returns a diagram with exactly the models of the formula in which no path decides a variable twice, and returns the false CONSTANT exactly when the formula is unsatisfiable (validity carries a witness: any diagram other than the false constant is true on some assignment extending the model),
+                 'for regular AND complemented pointers of any diagram in which no path decides a variable twice (no ordering assumption); var and the standard store get_or_insert are under contract; conjoin_implied (the step by which unit-propagated literals enter a diagram) returns the diagram conjoined with the literals and keeps "decides once".  First sentence of the property, RELATIVE to the assumed solver interface (A-sat) and cache soundness (A-reshash): topdown_h returns a diagram that agrees with the formula on every assignment extending the current partial model, decides no variable twice and none that the model assigns, restores the solver stack and keeps the component cache valid; compile_cnf_topdown returns a diagram with exactly the models of the formula in which no path decides a variable twice, and returns the false CONSTANT exactly when the formula is unsatisfiable (validity carries a witness: any diagram other than the false constant is true on some assignment extending the model)',
      not_covered=[
          'topdown_h / compile_cnf_topdown are proved only RELATIVE to the assumed solver contract A-sat and cache soundness A-reshash: a defect inside SATSolver (unit propagation, the residual hash) is invisible to the proof [bounded check `dnnf`, both node stores]',
          'conjoin_implied is under contract with two declared rewrites: its `impl Iterator<Item = Literal>` parameter is the trusted container LitIter and the loop iterates the vector it stands for (A-lit-iter); proved: the result is the diagram conjoined with every implied literal and still decides each variable once, provided the literals are on distinct variables the diagram does not decide -- the callers (topdown_h) are not under contract',
